@@ -91,6 +91,15 @@ Theorem C17_rotate_exact : forall x y, wf x -> in_i64 y ->
 Proof. exact (fun x y Hx Hy => conj (brol_correct x y Hx Hy) (bror_correct x y Hx Hy)). Qed.
 Print Assumptions C17_rotate_exact.
 
+(* the reduction of the count is needed: the same code with the scraped policy rot_reduces_count = false (branching on
+   the sign of the count, the code before the repair) is not a rotation.  C17_rotate_exact is proved from the fact
+   rot_reduces_count = true, so a revert breaks it. *)
+Theorem C17_rotate_reduction_needed :
+  ~ (forall x y, wf x -> in_i64 y -> exists r, brol_pol false x y = Some r /\ wf r /\ uval r = rotl (uval x) y) /\
+  ~ (forall x y, wf x -> in_i64 y -> exists r, bror_pol false x y = Some r /\ wf r /\ uval r = rotl (uval x) (- y)).
+Proof. exact rot_reduction_needed. Qed.
+Print Assumptions C17_rotate_reduction_needed.
+
 (* ---- conversions from and to Lua integers ---- *)
 Theorem C17_integer_conv_exact :
   (forall i, in_i64 i -> wf (fromuinteger i) /\ uval (fromuinteger i) = u64 i) /\
@@ -182,6 +191,13 @@ Theorem C17_upowmod_exact : forall x y m, wf x -> wf y -> wf m ->
 Proof. exact upowmod_correct. Qed.
 Print Assumptions C17_upowmod_exact.
 
+(* the modular products are needed: with the scraped policy upowmod_mulmod = false (bint_umod(a * b, m), the code
+   before the repair) the statement is false.  C17_upowmod_exact is proved from the fact upowmod_mulmod = true. *)
+Theorem C17_upowmod_mulmod_needed : ~ (forall x y m, wf x -> wf y -> wf m -> uval m <> 0 ->
+  exists r, upowmod_pol false x y m = Ok r /\ wf r /\ uval r = (uval x ^ uval y) mod uval m).
+Proof. exact upowmod_mulmod_needed. Qed.
+Print Assumptions C17_upowmod_mulmod_needed.
+
 (* ---- text.  Strings are lists of byte codes.  dval base ds = value of the digit list ds;
    canon base ds v: ds are digits of the base, their value is v, no leading zero (single 0 for v = 0);
    char_ok base c: c is alphanumeric with digit value cval c < base; sign_ok: "", "-" or "+". ---- *)
@@ -241,6 +257,16 @@ Theorem C17_literal_exact :
      exists x, bn_from_dec (sg ++ cs) = Ok (LInt x) /\ wf x /\ uval x = (sign_val sg * dval 10 (map cval cs)) mod 2 ^ BINT_BITS).
 Proof. exact (conj from_bin_correct (conj from_hex_correct (conj from_dec_unsigned from_dec_signed))). Qed.
 Print Assumptions C17_literal_exact.
+
+(* the range test of the decimal reader is needed: with the scraped policy dec_literal_checked = false (the reader
+   before the repair) the decimal digits of 2^BITS are read as the integer 0.  The decimal clause of
+   C17_literal_exact is proved from the fact dec_literal_checked = true. *)
+Theorem C17_literal_check_needed : ~ (forall cs, cs <> [] -> Forall (char_ok 10) cs ->
+  let v := dval 10 (map cval cs) in
+  (v < 2 ^ BINT_BITS / 2 -> exists x, bn_from_dec_pol false cs = Ok (LInt x) /\ wf x /\ uval x = v /\ sval x = v) /\
+  (2 ^ BINT_BITS / 2 <= v -> bn_from_dec_pol false cs = Ok LFloat)).
+Proof. exact dec_check_needed. Qed.
+Print Assumptions C17_literal_check_needed.
 
 (* bn.lua: todecint / tohexint / tobinint (bits = nil or a Lua integer: wrap to that many bits first) *)
 Theorem C17_intstring_exact : forall v bits, wf v -> (forall b, bits = Some b -> in_i64 b) ->
